@@ -208,6 +208,22 @@ def oracles(h0, script, obs):
     return out
 
 
+def corpus_cases():
+    """corpus/C15/*.txt: `<name> <h0> <call> ... | <schedule>` per line (# comments) -> [(name, h0, script, schedule)]"""
+    d = os.path.join(vlib.VERIF, "corpus", "C15")
+    out = []
+    for f in sorted(os.listdir(d)) if os.path.isdir(d) else []:
+        if not f.endswith(".txt"):
+            continue
+        for ln in open(os.path.join(d, f)):
+            ln = ln.split("#")[0].split()
+            if not ln:
+                continue
+            bar = ln.index("|")
+            out.append(("corpus:" + ln[0], int(ln[1]), ln[2:bar], "".join(ln[bar + 1:])))
+    return out
+
+
 def tsan_reports(err):
     """[(key, text)] for ThreadSanitizer reports whose racing accesses are in librime's own code"""
     out, ignored = [], 0
@@ -250,14 +266,16 @@ def run(ctx):
     ctx.coverage["translated_functions"] = len(fns)
     ctx.coverage["lock_scope_table"] = [
         {"fn": f, "var": v, "kind": k, "locks": list(l)} for f, v, k, l in table
-        if v in ("Deployer::pending_tasks_", "Service::notification_handler_", "Deployer::maintenance_mode_", "Deployer::work_")]
+        if v in ("Deployer::pending_tasks_", "Service::notification_handler_", "Deployer::maintenance_mode_", "Deployer::work_",
+                 "Deployer::running_")]
     ctx.coverage["trusted_base"] = [
         "Coq 8.16.1 kernel + vm_compute (table checks, witness schedules); no native_compute",
-        "translator gen/lock_scopes.py (clang -ast-dump=json of deployer.cc/service.cc -> access/lock-scope rows; AUnknown when unsure)",
+        "translator gen/lock_scopes.py (clang -ast-dump=json of deployer.cc/service.cc -> access/lock-scope rows, AUnknown when unsure; "
+        "statement skeletons of Deployer::Run/FinishWork/StartWork -> handover_fact, HUnrecognised unless exactly one of the two known shapes)",
         "Dep/Sched.v as a port of Deployer/Service/rime_api_impl.h: atomicity of the code between two RIME_VERIF_YIELD points that "
         "touches at most one shared member; std::future (ready strictly after the lambda returned; get() rethrows); std::mutex",
         "extraction: ExtrOcamlBasic only; ocaml/common/glue.ml + ocaml/c15/driver.ml are conversion glue",
-        "harness/c15/c15.cc (schedule controller over the hooks of commit 6f9c578; ASan+UBSan and TSan builds of /repo's working tree)",
+        "harness/c15/c15.cc (schedule controller over the hooks of commits 6f9c578 and 4978e15; ASan+UBSan and TSan builds of /repo's working tree)",
     ]
     ctx.assumptions += [
         "one client thread (the property quantifies over sequences of client calls); several client threads calling the API concurrently are outside the model",
@@ -289,8 +307,10 @@ def run(ctx):
     t0 = time.time()
     rc, out, err = vlib.sh2([rmodel], stdin="T\nW\n", timeout=120)
     tline = [l for l in out.split("\n") if l.startswith("T ")][0].split()
-    cfg = dict(zip(["shape_ok", "lk_sched", "lk_next", "lk_hasp", "lk_set", "lk_clear", "lk_ntest", "lk_ncall"], map(int, tline[1:])))
+    cfg = dict(zip(["shape_ok", "lk_sched", "lk_next", "lk_hasp", "lk_set", "lk_clear", "lk_ntest", "lk_ncall"], map(int, tline[1:9])))
+    cfg["handover_of_table"], cfg["handover_fact"] = tline[9], tline[10]
     ctx.coverage["model_config_from_table"] = cfg
+    ctx.coverage["handover_skeletons"] = lock_scopes.handover_fact()[1]
     witnesses = []
     for l in out.split("\n"):
         if l.startswith("W "):
@@ -308,6 +328,10 @@ def run(ctx):
         if (h, tuple(s)) not in seen:
             seen.add((h, tuple(s)))
             scripts.append((h, s))
+    # regression corpus (schedules that failed once): replayed like the witnesses
+    corpus = corpus_cases()
+    ctx.coverage["corpus_cases"] = [c[0] for c in corpus]
+    witnesses += corpus
     req = "".join("E %d %d %s\n" % (k, h, " ".join(s)) for h, s in scripts)
     req += "".join("R %d %s | %s\n" % (h, " ".join(s), sch) for _, h, s, sch in witnesses)
     rc, out, err = vlib.sh2([rmodel], stdin=req, timeout=1200)
@@ -330,11 +354,16 @@ def run(ctx):
                 sch, _, ob = l[2:].partition(" | ")
                 probes.append(("probe", h, s, sch.strip(), ob.strip()))
         li += 1
+    refused_corpus = []
     for (name, h, s, sch) in witnesses:
         ob = lines[li].strip()
         li += 1
         if not ob.startswith("REFUSED"):
             cases.append(("witness:" + name, h, s, sch, ob))
+        elif name.startswith("corpus:"):
+            # the model built from the current table cannot follow a corpus schedule: the real library is taken along it
+            # tolerantly and judged by the property's oracles alone
+            refused_corpus.append(("witness:" + name, h, s, sch, ob))
         else:
             ctx.notes.append("witness %s is not a schedule of the model built from the current table (%s) - not replayed" % (name, ob))
     nprobe = 48 if ctx.tier == "quick" else 240
@@ -402,8 +431,8 @@ def run(ctx):
     # --- failing-input search when the correspondence broke: follow the same schedules tolerantly
     # on the real library and evaluate the property's oracles on what it does
     searched = 0
-    if stuck or mism:
-        pool = [c for c, _ in (stuck + mism)][:4000]
+    if stuck or mism or refused_corpus:
+        pool = refused_corpus + [c for c, _ in (stuck + mism)][:4000]
         feed = "".join("%d %s | t%s\n" % (h, " ".join(s), sch) for _, h, s, sch, _ in pool)
         rc, sout, serr = vlib.sh2([exe, ctx.scratch("c15-search")], stdin=feed, timeout=900,
                                   env={"ASAN_OPTIONS": "detect_leaks=0:abort_on_error=0"})
@@ -504,14 +533,20 @@ MANIFEST = {
             "hook points x the client's API calls): session operations are refused while the worker's future is not ready and accepted "
             "after; no session operation is in progress while a worker exists; every handler invocation is of the handler installed by "
             "the latest returned set_notification_handler call and no such call returns during an invocation (handler_excl); no task "
-            "runs twice, none vanishes (tasks may return true/false or throw); every task scheduled "
-            "before a worker was started has run when IsWorking() turns false (task_not_lost, the strongest true form); deploy "
+            "runs twice, none vanishes (tasks may return true/false or throw); EVERY task scheduled at any time has run when, at a call "
+            "boundary of the client, IsWorking() is false - and already when the worker has cleared running_ "
+            "(C15_every_task_runs_before_idle, C15_every_task_runs_when_worker_quits: the full statement, for the hand-over through "
+            "running_ under Deployer::mutex_ of /repo 9f55844; inductive invariant, no bound); deploy "
             "notifications are (start result+)* complete whenever no worker exists; no two conflicting accesses of the generated "
-            "lock-scope table are enabled together (race_free); the handler is never called empty. The stronger 'every scheduled task "
-            "runs before maintenance is reported over' is proved FALSE (worker exit window) and replayed on the real code (known finding). "
-            "Schedules with <=2/<=3 preemptions of generated scripts and all witnesses are replayed on the real library; observations must be equal.",
+            "lock-scope table are enabled together (race_free, including running_ and StartWork's now locked queue reads); the handler "
+            "is never called empty. The model has both hand-over shapes, selected by the table and by the statement skeletons of "
+            "Run/FinishWork/StartWork (clang AST; anything else is HUnrecognised): for the hand-over before the repair the full statement "
+            "is proved FALSE (C15_every_task_runs_before_idle_refuted, worker exit window, finding 8 - fixed). "
+            "Schedules with <=2/<=3 preemptions of generated scripts, all witnesses and the regression corpus (corpus/C15) are replayed on "
+            "the real library; observations must be equal.",
     "note": "Trusted: Coq kernel + vm_compute; gen/lock_scopes.py; the port of deployer.cc/service.cc/rime_api_impl.h in Dep/Sched.v "
-            "(atomicity between cut points, std::future/std::mutex semantics); ExtrOcamlBasic + OCaml/C++ glue; the hooks of commit 6f9c578. "
+            "(atomicity between cut points, std::future/std::mutex semantics; the wait for the previous worker's future before a spawn is one "
+            "blocking step); ExtrOcamlBasic + OCaml/C++ glue; the hooks of commits 6f9c578, 4978e15. "
             "No axioms (Print Assumptions: closed under the global context). One client thread; tasks opaque; real scheduler explored only "
             "up to the preemption bound at the hooks; TSan stress supports but does not prove race freedom.",
 }
